@@ -56,7 +56,7 @@ def _len_class(cls, repo):
 
 
 def _int_arm(cls):
-    """('returns'|'raises'|'absent'|'falls-to-other-arm', arm)"""
+    """('returns'|'raises'|'absent', arm, member): what ds[<int>] does, decided on the statements that run for an int"""
     mem = cls.resolve('__getitem__')
     if mem is None or not mem.is_function:
         return 'absent', None, None
@@ -64,35 +64,27 @@ def _int_arm(cls):
     if K.only_raises(fn):
         return 'absent', None, mem
     item, arms = K.getitem_arms(fn)
-    for arm in arms:
-        if arm['types'] and 'int' in arm['types']:
-            body = arm['body']
-            has_ret = any(isinstance(n, ast.Return) and n.value is not None and not (
-                isinstance(n.value, ast.Call) and isinstance(n.value.func, ast.Attribute)
-                and isinstance(n.value.func.value, ast.Call) and A.dotted(n.value.func.value.func) == 'super')
-                for n in A.walk_stmts(body))
-            has_raise = any(isinstance(n, ast.Raise) for n in A.walk_stmts(body))
-            if has_ret:
-                return 'returns', arm, mem
-            if has_raise and not has_ret:
-                return 'raises', arm, mem
-            tail = fn.body[-1]
-            if isinstance(tail, ast.Return) and isinstance(tail.value, ast.Name) and any(
-                    isinstance(n, ast.Assign) and any(A.is_name(t, tail.value.id) for t in n.targets) for n in A.walk_stmts(body)):
-                return 'returns', arm, mem      # the arm computes the value that the common tail returns
-            rebinds = any(isinstance(n, ast.Assign) and any(A.is_name(t, item) for t in n.targets) for n in A.walk_stmts(body))
-            later = [a2 for a2 in arms if a2 is not arm and a2['types'] and 'str' in a2['types']
-                     and a2['node'].lineno > arm['node'].lineno]
-            if rebinds and later:
-                return 'falls-to-other-arm', arm, mem
-            return 'absent', arm, mem
-    # no isinstance dispatch at all: a wrapper that forwards the index unchanged to its input
     if not arms:
+        # no dispatch on the index type at all: a wrapper that forwards the index unchanged to its input
         for n in A.walk_local(fn):
             if isinstance(n, ast.Return) and isinstance(n.value, ast.Subscript) and A.is_name(n.value.slice, item) \
                     and A.is_self_attr(n.value.value, INPUT_ATTR):
                 return 'returns', None, mem
-    return 'absent', None, mem
+        return 'absent', None, mem
+    arm = [a for a in arms if 'int' in a['types']][0]
+    body = arm['body']
+
+    def is_super_getitem(v):
+        return isinstance(v, ast.Call) and isinstance(v.func, ast.Attribute) and isinstance(v.func.value, ast.Call) \
+            and A.dotted(v.func.value.func) == 'super'
+    rets = [n for n in A.walk_stmts(body) if isinstance(n, ast.Return) and n.value is not None]
+    real = [r for r in rets if not is_super_getitem(r.value)]
+    has_raise = any(isinstance(n, ast.Raise) for n in A.walk_stmts(body)) or arm['dead_end']
+    if real:
+        return 'returns', arm, mem
+    if has_raise and not rets:
+        return 'raises', arm, mem
+    return 'absent', arm, mem
 
 
 def rule_k0(ctx):
@@ -138,7 +130,7 @@ def rule_k1(ctx):
             ok_len = lc in ('forward', 'own', 'conditional-own', 'conditional-forward')
             rep.ob('K1', K.key(cls, None, 'indexable=>len'), ok_len, (lmem.node if lmem else cls.node),
                    '' if ok_len else 'may report indexable=True (%s) but __len__ is %s' % (val, lc))
-            ok_get = ia in ('returns', 'falls-to-other-arm')
+            ok_get = ia in ('returns',)
             rep.ob('K1', K.key(cls, None, 'indexable=>int-lookup'), ok_get, (gmem.node if gmem else cls.node),
                    '' if ok_get else 'may report indexable=True (%s) but the integer branch of __getitem__ is %s'
                    % (val, ia))
@@ -646,11 +638,9 @@ def rule_sx(ctx):
     for n in A.walk_local(init):
         if isinstance(n, ast.Assign) and any(A.is_self_attr(t, idx_attr) for t in n.targets):
             v = n.value
-            fresh = (isinstance(v, ast.Subscript) and isinstance(v.value, ast.Call) and (A.dotted(v.value.func) or '').endswith('arange')) \
-                or (isinstance(v, ast.Call) and not isinstance(v.func, ast.Name)) or isinstance(v, ast.Tuple)
-            alias = isinstance(v, (ast.Name, ast.Attribute)) or (isinstance(v, ast.Call) and A.dotted(v.func) in ('np.asarray', 'numpy.asarray'))
-            rep.ob('SX', K.key(cls, '__init__', 'index-array-is-always-a-private-re-derivation'), fresh and not alias, n,
-                   '' if fresh and not alias else 'self.%s = %s keeps the caller\'s index object: an array that is later '
+            alias = flow.aliases_caller_object(v, init)
+            rep.ob('SX', K.key(cls, '__init__', 'index-array-is-always-a-private-re-derivation'), not alias, n,
+                   '' if not alias else 'self.%s = %s keeps the caller\'s index object: an array that is later '
                    'modified in place (a reshuffled permutation) changes this slice, and bounds/negatives are not normalised' % (
                        idx_attr, A.short(v)))
     for name, pred in (
